@@ -37,12 +37,17 @@ where
                 (absv.abs() / x_curr) * 100_f64
             };
         }
-        let test = polynomial.eval_univariate(lower_bound)? * polynomial.eval_univariate(x_curr)?;
+        let f_lower = polynomial.eval_univariate(lower_bound)?;
+        let test = f_lower * polynomial.eval_univariate(x_curr)?;
         if test < 0 as f64 {
             upper_bound = x_curr;
         } else if test > 0 as f64 {
             lower_bound = x_curr;
         } else {
+            // A root sitting on the lower end of the bracket is the answer
+            if f_lower == 0 as f64 {
+                x_curr = lower_bound;
+            }
             approx_err = 0.0;
         }
         if approx_err.abs() < error_tol || iter >= itermax {
